@@ -228,6 +228,10 @@ def cases(rng, tier, stats):
     stats["argument_tuples"] = nt
     stats["fault_cases"] = n
     stats["fault_kinds"] = kinds
+    from props.C06 import index_boundary_family
+    ib = index_boundary_family(tier)
+    out += ib
+    stats["index_boundary"] = len(ib)
     return out
 
 
